@@ -47,7 +47,7 @@ JOB_TIMEOUT = {"quick": 2400, "thorough": 7200}
 
 def bounds(tier):
     return {"validators": "9 config classes + verbosity mapping; numeric fields symbolic unbounded", "solve": "5 solvers, gamma in [0,1], eps in [1e-15,1e10), both convergence tests",
-            "routes": "5 solvers x {Forest, De Moor} x 2 parameter sets", "precision": "5 solvers x 2 orders, fresh processes"}
+            "routes": "5 solvers x {Forest, De Moor} x 2 parameter sets, Hendrix and Mirjalili with the first set" + ("" if tier == "quick" else " (thorough: all four problems x all sets)"), "precision": "5 solvers x 2 orders, fresh processes"}
 
 
 def jobs(tier, seed):
@@ -57,7 +57,7 @@ def jobs(tier, seed):
     for solver in ("vi", "pi", "rvi", "pvi", "savi"):
         for test in (("span", "max_diff") if solver in ("vi", "pi", "savi") else ("span",)):
             out.append(dict(name=f"solve-{solver}-{test}", kind="solve", solver=solver, test=test, devices=1, cost=40))
-        out.append(dict(name=f"routes-{solver}", kind="routes", solver=solver, devices=1, cost=30))
+        out.append(dict(name=f"routes-{solver}", kind="routes", solver=solver, all_problems=(tier != "quick"), devices=1, cost=30 if tier == "quick" else 90))
         out.append(dict(name=f"precision-{solver}", kind="precision", solver=solver, devices=1, cost=30))
     return out
 
@@ -315,7 +315,7 @@ def run_routes(job, ob):
                 ("mirjalili", MJ, MJC, dict(max_demand=2, max_useful_life=2, max_order_quantity=1, useful_life_at_arrival_distribution_c_0=(0.75,),
                                             useful_life_at_arrival_distribution_c_1=(0.125,), weekday_demand_negbin_n=(3.5, 11.0, 7.2, 11.1, 5.9, 5.5, 2.2)))]
         for pi_, params in enumerate(route_params(name)):
-            for pname, P, PC, pkw in (problems + more if pi_ == 0 else problems):
+            for pname, P, PC, pkw in (problems + more if (pi_ == 0 or job.get("all_problems")) else problems):
                 res = {}
                 errs = {}
                 for route in ("instance+kwargs", "config-only", "reloaded"):
